@@ -1,5 +1,5 @@
 #!/venv/bin/python
-"""tools/mkprompts.py <round dir> <suffix>=<focus file> ... : task files for one round of seeded property-breaking changes.
+"""tools/mkprompts.py [--template file] <round dir> <suffix>=<focus file> ... : task files for one round of seeded property-breaking changes.
 
 For every property and every (suffix, focus) one file <round dir>/prompts/<id>_<suffix>.txt is written: the property record, the
 focus paragraph, the one-line summaries of every change earlier seeders made for that property (from seeded/*/notes.md; so that
@@ -36,8 +36,14 @@ TEMPLATE = open(os.path.join(HERE, 'tools', 'seed_prompt.tmpl')).read()
 
 
 def main():
-    rdir = sys.argv[1]
-    foci = dict(a.split('=', 1) for a in sys.argv[2:])
+    args = sys.argv[1:]
+    template = TEMPLATE
+    if '--template' in args:                      # e.g. tools/benign_prompt.tmpl (negative controls)
+        i = args.index('--template')
+        template = open(args[i + 1]).read()
+        del args[i:i + 2]
+    rdir = args[0]
+    foci = dict(a.split('=', 1) for a in args[1:])
     os.makedirs(os.path.join(rdir, 'prompts'), exist_ok=True)
     os.makedirs(os.path.join(rdir, 'out'), exist_ok=True)
     os.makedirs(os.path.join(rdir, 'res'), exist_ok=True)
@@ -47,7 +53,7 @@ def main():
         for suf, ff in foci.items():
             focus = open(ff).read().strip() if ff else ''
             ident = '%s_%s' % (pr['id'], suf)
-            t = TEMPLATE
+            t = template
             t = t.replace('@WT@', '%s/wt_%s' % (rdir, ident)).replace('@OUT@', '%s/out/%s' % (rdir, ident))
             t = t.replace('@RDIR@', rdir).replace('@ID@', pr['id'])
             t = t.replace('@PROPERTY@', json.dumps(pr, indent=1))
